@@ -471,6 +471,8 @@ wait:
 		}
 	}
 
+	ex := runExtra(c, tier, deadline, len(inputs))
+
 	keys := make([]string, 0, len(c.first))
 	for k := range c.first {
 		keys = append(keys, k)
@@ -491,11 +493,13 @@ wait:
 	}
 
 	nd := int(done.Load())
-	r.Add("states", 2*nd) // every sequence once as []int and once as [](key,id)
-	r.Add("transitions", int(evals.Load()))
-	r.Add("traces_validated_against_impl", int(evals.Load()))
-	r.Add("evaluations", int(evals.Load()))
-	r.Add("distinct_nontrivial", int(nontrivial.Load()))
+	r.Add("states", 2*nd+ex.longInputs+ex.heapSeqs) // every sequence once as []int and once as [](key,id)
+	r.Add("transitions", int(evals.Load())+ex.longEvals+ex.heapOps)
+	r.Add("traces_validated_against_impl", int(evals.Load())+ex.longEvals+ex.heapOps)
+	r.Add("evaluations", int(evals.Load())+ex.longEvals+ex.heapSeqs*2)
+	r.Add("distinct_nontrivial", int(nontrivial.Load())+ex.longInputs+ex.heapSeqs)
+	r.Set("long_inputs", map[string]any{"binary_keys_max_length": ex.maxBin, "ternary_keys_max_length": ex.maxTer, "sequences": ex.longInputs, "evaluations": ex.longEvals})
+	r.Set("heap_interleavings", map[string]any{"max_depth": ex.depth, "scripts": ex.heapSeqs, "operations_compared": ex.heapOps})
 	r.Set("sequences", nd)
 	r.Set("max_length", maxLen)
 	r.Set("domain", domain)
@@ -508,16 +512,21 @@ wait:
 		on = append(on, "pair{K,ID}: "+o.name)
 	}
 	r.Set("orderings", on)
-	r.Set("exhaustive", !timedOut.Load() && nd == len(inputs))
+	r.Set("exhaustive", !timedOut.Load() && nd == len(inputs) && ex.exhaustive)
 	r.Set("rule", "every sequence over the domain up to max_length, as []int and as [](key,position) pairs, times every ordering "+
 		"(cmp.Reverse orderings only on duplicate-free sequences), times {SortMerge, SortQuick, IsSorted, Heap}. Oracles: multiset "+
 		"equality, independent adjacent-pair scan with the same lt, position ids for stability (SortQuick only), then Len, "+
 		"forward = mirrored backward walk, In(list) of every element, PushBack/PopFront/PopBack values on the sorted list; "+
-		"IsSorted compared with the adjacent-pair scan; Heap: push all, pop all, every value exactly once, non-decreasing, then empty.")
+		"IsSorted compared with the adjacent-pair scan; Heap: push all, pop all, every value exactly once, non-decreasing, then empty. "+
+		"Long inputs: every key sequence over {0,1} (length 9..binary_keys_max_length) and {0,1,2} (length 9..ternary_keys_max_length) as (key,position) pairs, "+
+		"same sort/IsSorted oracles (algorithm switches by length are covered). Heap interleavings: every script of Push(1|2|3)/Pop up to max_depth "+
+		"against a sorted multiset, compared after every operation, under < and >.")
+	r.Sample(map[string]any{"heap_script": []string{"Push(3)", "Push(1)", "Pop", "Push(2)", "Pop", "Pop"}, "lt": "native"})
+	r.Sample(map[string]any{"long_input_keys": []int{0, 1, 0, 1, 0, 1, 0, 1, 0, 1, 0, 1, 0}, "as": "(key,position) pairs under LessThanConverter(pair.K)"})
 	r.Sample(map[string]any{"input": []int{1, -1, 2, 0}, "evaluations": "SortMerge, SortQuick, IsSorted, Heap under each of 3 int and 3 pair orderings"})
 	r.Assume = append(r.Assume,
 		"cmp.Reverse(lt) is not a strict weak order when two elements are equivalent; it is used on duplicate-free inputs only",
 		"stability is only required of SortQuick (statement); it is observed through (key,position) pairs ordered by key",
-		"Heap is exercised as push-all then pop-all for every push order",
+		"Heap: push-all then pop-all for every push order, plus every interleaved Push/Pop script up to the stated depth",
 	)
 }
